@@ -411,6 +411,8 @@ def Spec.classifiedLoops : List Classified := [
   ⟨"object/state.go | Environment.SaveGlobals | range e.store", boundedByContainer, "bindings"⟩,
   ⟨"object/state.go | Environment.SaveGlobals | range keys", boundedByContainer, "bindings"⟩,
   ⟨"object/state.go | Environment.makeRef | for ; e.outer != nil; ", boundedByFrames, "walk up the (lexical) environment chain"⟩,
+  ⟨"object/state.go | sameTypes | range le", boundedByContainer, "the elements of an existing array (the strict constant check recurses over nested containers: bounded by the value's size)"⟩,
+  ⟨"object/state.go | sameTypes | range lkv", boundedByContainer, "the pairs of an existing map"⟩,
   ⟨"repl/repl.go | logParserErrors | range errs", boundedByContainer, "parser errors of one input"⟩ ]
 
 /-- **C09 (time part, 1)**: every Go-level loop of the evaluator is one of the classified loops and vice
